@@ -707,13 +707,16 @@ theorem PI.applyFront (h : PI none fl T C s) (f : FOp) : PI none fl T C (applyFr
     exact h.frame (by rw [core_reapSinks]; rfl)
   | query => exact h
 
-theorem PI.foldFront (ops : List FOp) (e : BSt → FOp → Ev) (s1 : BSt) (h1 : PI none fl T C s1) :
-    PI none fl T C (ops.foldl (fun s f => (Backend.applyFront s f).1.emit (e s f)) s1) := by
+theorem PI.foldFront (ops : List FOp) (skip : FOp → Bool) (e : BSt → FOp → Ev) (s1 : BSt) (h1 : PI none fl T C s1) :
+    PI none fl T C (ops.foldl (fun s f => (if skip f then (s, "noop") else Backend.applyFront s f).1.emit (e s f)) s1) := by
   induction ops generalizing s1 with
   | nil => exact h1
   | cons f fs ih =>
     rw [List.foldl_cons]
-    exact ih _ ((h1.applyFront f).frame rfl)
+    apply ih
+    split
+    · exact h1.frame rfl
+    · exact (h1.applyFront f).frame rfl
 
 /-- the injection runner of a poll is a sequence of frontend operations -/
 theorem PI.runInj (h : PI none fl T C s) (table : List (Nat × Nat × List FOp)) (site : Nat) :
@@ -722,6 +725,8 @@ theorem PI.runInj (h : PI none fl T C s) (table : List (Nat × Nat × List FOp))
   simp only
   split
   · exact h.frame rfl
-  · exact PI.foldFront _ (fun s f => Ev.inj site _ f.show (Backend.applyFront s f).2) _ (h.frame rfl)
+  · exact PI.foldFront _ (fun f => decide (site = 9) && f.needsManagerLock)
+      (fun s f => Ev.inj site _ f.show (if (decide (site = 9) && f.needsManagerLock) = true then (s, "noop")
+        else Backend.applyFront s f).2) _ (h.frame rfl)
 
 end Backend.PB
